@@ -395,6 +395,20 @@ func (c19) RunCase(c *core.Ctx) {
 		}
 		c.Distinct("directed_default_schemas", name)
 	}
+	if c.Case%100 == 35 {
+		c.Eval(9)
+		if problem := dFormatterSetParams(); problem != "" {
+			c.Violation("later-use-differs|after-an-execution-whose-formatter-set-params", map[string]any{"observed": problem})
+			return
+		}
+	}
+	if c.Case%100 == 34 {
+		c.Eval(3)
+		if problem := dStructInputs(); problem != "" {
+			c.Violation("input-modified|struct-record-with-nil-embedded-pointer", map[string]any{"schema": "Struct{Title: String().Required(), Author: String().Default(nobody), Rev: Int(), Tags: Slice(String())}; record type struct{ *DAudit{Author, Rev}; Title; Tags }", "observed": problem})
+			return
+		}
+	}
 	n, special := c19Schema(c.R)
 	src := n.Source()
 	b := spec.Build(n, nil) // ONE schema object for the whole history
